@@ -84,8 +84,30 @@ static struct in_addr *ares_save_opt_servers(const ares_channel_t *channel,
 }
 
 /* Save options from initialized channel */
+static int ares_save_options_nolock(const ares_channel_t *channel,
+                                    struct ares_options  *options,
+                                    int                  *optmask);
+
 int ares_save_options(const ares_channel_t *channel,
                       struct ares_options *options, int *optmask)
+{
+  int rc;
+
+  /* The channel's servers, sortlist and domains are read (and copied) below:
+   * hold the channel lock, another thread may be replacing them */
+  if (channel != NULL) {
+    ares_channel_lock(channel);
+  }
+  rc = ares_save_options_nolock(channel, options, optmask);
+  if (channel != NULL) {
+    ares_channel_unlock(channel);
+  }
+  return rc;
+}
+
+static int ares_save_options_nolock(const ares_channel_t *channel,
+                                    struct ares_options  *options,
+                                    int                  *optmask)
 {
   size_t i;
 
